@@ -5,139 +5,352 @@ import (
 	"context"
 	"fmt"
 	"math/rand"
+	"sort"
 	"testing"
 
 	"github.com/restic/restic/internal/backend"
 	"github.com/restic/restic/internal/restic"
+	rtest "github.com/restic/restic/internal/test"
 	kit "github.com/restic/restic/internal/verifkit"
 )
 
 // c43Repo: Repository.LoadBlobsFromPack on a real repository (tracing store with read faults); the fallback is the
-// real LoadBlob, other copies are real duplicates stored in a second pack.
+// real LoadBlob.  The repository is written in 1..3 upload sessions (the same Repository object or a reopened one,
+// compression off / auto / max, one or two packers); every session may store a blob zero, one or two times
+// (storeDuplicate), so a blob can have several copies in ONE pack (different offsets) and copies of different stored
+// length in several packs.  One pack is streamed; it is intact, has flipped bytes in some copies, or becomes
+// unreadable from the k-th download on; every other pack holding a copy of a requested blob is intact, has flipped
+// bytes in some copies, or is unreadable.  The record lists every stored copy of the requested blobs
+// (Fn_StreamPack judges with them whether an error callback is justified).
+type c43Copy struct {
+	Tok       string
+	Where     string // "s": in the streamed pack, "o": in another pack
+	Off, Len  int
+	Damaged   bool // a byte of this copy is flipped in every read
+	PackFails bool // (other packs) every download of the pack fails
+}
+
+func (c c43Copy) MarshalJSON() ([]byte, error) {
+	return []byte(fmt.Sprintf("[%q,%q,%d,%d,%v,%v]", c.Tok, c.Where, c.Off, c.Len, c.Damaged, c.PackFails)), nil
+}
+
+type c43RBlob struct {
+	tok   string
+	plain []byte
+	h     restic.BlobHandle
+}
+
+// c43StoredCopy is one index entry of a blob, in Lookup order
+type c43StoredCopy struct {
+	b        *c43RBlob
+	pack     restic.ID
+	off, len uint
+	damaged  bool
+	flipAt   int
+}
+
+func c43Open(ctx context.Context, res *kit.Result, be backend.Backend, mode CompressionMode) *Repository {
+	repo, err := New(be, Options{Compression: mode})
+	if err != nil {
+		res.Problem("reopen: %v", err)
+		return nil
+	}
+	if err = repo.SearchKey(ctx, rtest.TestPassword, 10, ""); err != nil {
+		res.Problem("reopen: search key: %v", err)
+		return nil
+	}
+	if err = repo.LoadIndex(ctx, restic.NoopTerminalCounterFactory); err != nil {
+		res.Problem("reopen: load index: %v", err)
+		return nil
+	}
+	return repo
+}
+
 func c43Repo(t *testing.T, res *kit.Result, emit func(rec c43Rec, sig string, nontrivial bool), r *rand.Rand) {
 	ctx := context.Background()
-	n := kit.Pick(90, 600)
+	n := kit.Pick(160, 1200)
+	modes := []CompressionMode{CompressionOff, CompressionAuto, CompressionMax}
 	for i := 0; i < n; i++ {
 		store := kit.NewStore()
-		repo, _ := TestRepositoryWithBackend(t, store.Backend("p"), 0, Options{})
-		nb := 2 + r.Intn(4)
-		type blob struct {
-			tok   string
-			plain []byte
-			h     restic.BlobHandle
-			copy  bool
+		be := store.Backend("p")
+		typ := restic.DataBlob
+		if r.Intn(6) == 0 {
+			typ = restic.TreeBlob // always compressed, packs of their own
 		}
-		var blobs []*blob
+		nb := 2 + r.Intn(4)
+		var blobs []*c43RBlob
 		for k := 0; k < nb; k++ {
 			size := []int{1, 100, 3000, 70000, 300000, 5*c43Unit + 7}[r.Intn(6)]
-			b := &blob{tok: fmt.Sprintf("b%d", k+1), plain: make([]byte, size), copy: r.Intn(2) == 0}
-			c43Fill(b.plain, r.Uint64(), r.Intn(3) == 0)
-			b.h = restic.BlobHandle{ID: restic.Hash(b.plain), Type: restic.DataBlob}
+			b := &c43RBlob{tok: fmt.Sprintf("b%d", k+1), plain: make([]byte, size)}
+			c43Fill(b.plain, r.Uint64(), r.Intn(2) == 0)
+			b.h = restic.BlobHandle{ID: restic.Hash(b.plain), Type: typ}
 			blobs = append(blobs, b)
 		}
-		save := func(sel func(b *blob) bool) error {
-			return repo.WithBlobUploader(ctx, func(ctx context.Context, up restic.BlobSaverWithAsync) error {
-				for _, b := range blobs {
-					if sel(b) {
-						if _, _, _, err := up.SaveBlob(ctx, b.h.Type, b.plain, b.h.ID, true); err != nil {
-							return err
-						}
+		// upload sessions
+		nsess := 1 + r.Intn(3)
+		var repo *Repository
+		saved, ok := 0, true
+		sessDesc := ""
+		for s := 0; s < nsess && ok; s++ {
+			mode := modes[r.Intn(len(modes))]
+			switch {
+			case s == 0:
+				repo, _ = TestRepositoryWithBackend(t, be, 0, Options{Compression: mode})
+			case r.Intn(3) != 0:
+				if repo = c43Open(ctx, res, be, mode); repo == nil {
+					ok = false
+					continue
+				}
+			default:
+				mode = repo.opts.Compression // the same Repository object goes on
+			}
+			repo.packerCount = 1 + r.Intn(2)
+			var plan []*c43RBlob
+			for _, b := range blobs {
+				times := 0
+				if s == 0 || r.Intn(2) == 0 {
+					times = 1
+					if r.Intn(4) == 0 {
+						times = 2 // twice in one session: usually two copies in the same pack
+					}
+				}
+				for k := 0; k < times; k++ {
+					plan = append(plan, b)
+				}
+			}
+			r.Shuffle(len(plan), func(a, b int) { plan[a], plan[b] = plan[b], plan[a] })
+			if len(plan) == 0 {
+				continue
+			}
+			sessDesc += fmt.Sprintf("/%s:%dpackers:%dsaves", map[CompressionMode]string{CompressionOff: "off", CompressionAuto: "auto", CompressionMax: "max", CompressionFastest: "fastest"}[repo.opts.Compression], repo.packerCount, len(plan))
+			err := repo.WithBlobUploader(ctx, func(ctx context.Context, up restic.BlobSaverWithAsync) error {
+				for _, b := range plan {
+					if _, _, _, err := up.SaveBlob(ctx, b.h.Type, b.plain, b.h.ID, true); err != nil {
+						return err
 					}
 				}
 				return nil
 			})
-		}
-		if err := save(func(*blob) bool { return true }); err != nil {
-			res.Problem("save A: %v", err)
-			continue
-		}
-		first := repo.LookupBlob(blobs[0].h)
-		if len(first) != 1 {
-			res.Problem("unexpected lookup %v", first)
-			continue
-		}
-		packA := first[0].PackID()
-		if err := save(func(b *blob) bool { return b.copy }); err != nil {
-			res.Problem("save B: %v", err)
-			continue
-		}
-		// the streamed pack is the first pack (other copies, if any, were stored later) or the second pack (every
-		// blob in it has an older copy in the first pack): LoadBlob meets the copies in either order
-		streamSecond := r.Intn(2) == 0
-		if streamSecond {
-			found := false
-			for _, b := range blobs {
-				for _, pb := range repo.idx.Lookup(b.h) {
-					if b.copy && pb.PackID() != packA && !found {
-						packA = pb.PackID()
-						found = true
-					}
-				}
+			if err != nil {
+				res.Problem("save session %d: %v", s, err)
+				ok = false
 			}
-			if !found {
-				streamSecond = false
-			}
+			saved += len(plan)
 		}
-		// requested: a random non-empty subset of the blobs stored in the streamed pack
-		type loc struct{ off, length uint }
-		where := map[string]loc{}
-		var inA []*blob
+		if !ok {
+			continue
+		}
+		if r.Intn(2) == 0 {
+			// read with a freshly opened repository (index loaded from the index files, other Lookup order)
+			if repo = c43Open(ctx, res, be, modes[r.Intn(len(modes))]); repo == nil {
+				continue
+			}
+			sessDesc += "/reopened"
+		}
+		// every stored copy, in Lookup order
+		copiesOf := map[*c43RBlob][]*c43StoredCopy{}
+		var all []*c43StoredCopy
 		for _, b := range blobs {
 			for _, pb := range repo.idx.Lookup(b.h) {
-				if pb.PackID() == packA {
-					where[b.tok] = loc{pb.Blob.Offset, pb.Blob.Length}
-					inA = append(inA, b)
+				c := &c43StoredCopy{b: b, pack: pb.PackID(), off: pb.Blob.Offset, len: pb.Blob.Length}
+				copiesOf[b] = append(copiesOf[b], c)
+				all = append(all, c)
+			}
+		}
+		if len(all) == 0 {
+			res.Problem("repo%d: no blob found in the index after %d saves", i, saved)
+			continue
+		}
+		if len(all) != saved {
+			res.Count("repo_index_entries_differ_from_saves", 1)
+		}
+		// the streamed pack: the pack of a random copy; half of the time of a blob with the most copies
+		pick := all[r.Intn(len(all))]
+		if r.Intn(2) == 0 {
+			best := blobs[0]
+			for _, b := range blobs {
+				if len(copiesOf[b]) > len(copiesOf[best]) {
+					best = b
+				}
+			}
+			pick = copiesOf[best][r.Intn(len(copiesOf[best]))]
+		}
+		packS := pick.pack
+		inS := func(c *c43StoredCopy) bool { return c.pack == packS }
+		var cand []*c43RBlob
+		for _, b := range blobs {
+			for _, c := range copiesOf[b] {
+				if inS(c) {
+					cand = append(cand, b)
+					break
 				}
 			}
 		}
-		if streamSecond {
-			res.Count("repo_streams_second_pack", 1)
-		}
-		var req []*blob
+		var req []*c43RBlob
 		for len(req) == 0 {
 			req = nil
-			for _, b := range inA {
+			for _, b := range cand {
 				if r.Intn(3) != 0 {
 					req = append(req, b)
 				}
 			}
 		}
-		rec := c43Rec{Variant: "repo", Layout: fmt.Sprintf("repo%d", i), Req: []c43Req{}, Loads: []c43Load{}, Cbs: [][2]string{}, Fallback: true}
-		fault := []string{"none", "flip", "flip", "packfail", "packfail"}[r.Intn(5)]
-		target := req[r.Intn(len(req))]
-		flipAbs := int(where[target.tok].off) + []int{0, 16, int(where[target.tok].length) / 2, int(where[target.tok].length) - 1}[r.Intn(4)]
+		var reqCopies []*c43StoredCopy
+		var reqCopiesS []*c43StoredCopy
+		otherPacks := map[restic.ID][]*c43StoredCopy{}
+		for _, b := range req {
+			for _, c := range copiesOf[b] {
+				reqCopies = append(reqCopies, c)
+				if inS(c) {
+					reqCopiesS = append(reqCopiesS, c)
+				} else {
+					otherPacks[c.pack] = append(otherPacks[c.pack], c)
+				}
+			}
+		}
+		flipIn := func(c *c43StoredCopy) {
+			c.damaged = true
+			c.flipAt = int(c.off) + []int{0, 16, int(c.len) / 2, int(c.len) - 1}[r.Intn(4)]
+		}
+		damageSome := func(cs []*c43StoredCopy, num, den int) {
+			hit := false
+			for _, c := range cs {
+				if r.Intn(den) < num {
+					flipIn(c)
+					hit = true
+				}
+			}
+			if !hit {
+				flipIn(cs[r.Intn(len(cs))])
+			}
+		}
+		// fault of the streamed pack
+		sfault := []string{"none", "flip", "flip", "flip", "packfail", "packfail"}[r.Intn(6)]
 		failFrom := 1 + r.Intn(2)
-		rec.Fault = fault + "/0"
-		if fault == "packfail" {
+		if sfault == "flip" {
+			damageSome(reqCopiesS, 1, 2)
+		}
+		// faults of the other packs with copies of requested blobs
+		packFails := map[restic.ID]bool{}
+		var others []restic.ID
+		for id := range otherPacks {
+			others = append(others, id)
+		}
+		sort.Slice(others, func(a, b int) bool { return bytes.Compare(others[a][:], others[b][:]) < 0 })
+		ofaults := ""
+		for _, id := range others {
+			switch r.Intn(4) {
+			case 2:
+				damageSome(otherPacks[id], 2, 3)
+				ofaults += "f"
+			case 3:
+				packFails[id] = true
+				ofaults += "x"
+			default:
+				ofaults += "-"
+			}
+		}
+		rec := c43Rec{Variant: "repo", Layout: fmt.Sprintf("repo%d%s", i, sessDesc), Req: []c43Req{}, Loads: []c43Load{}, Cbs: [][2]string{},
+			Copies: []c43Copy{}, SFault: sfault, Fallback: true}
+		rec.Fault = sfault + "/0"
+		if sfault == "packfail" {
 			rec.Fault = fmt.Sprintf("packfail/%d", failFrom)
 		}
+		rec.Fault += "+" + ofaults
 		var handles []restic.BlobHandle
+		dupInS, longerLater := false, false
 		for _, b := range req {
-			rec.Req = append(rec.Req, c43Req{b.tok, int(where[b.tok].off), int(where[b.tok].length), b.copy, fault == "flip" && b == target})
+			// informative: the first copy in the streamed pack in Lookup order, "another usable copy is stored", "this copy is damaged"
+			var first *c43StoredCopy
+			nS := 0
+			for _, c := range copiesOf[b] {
+				if inS(c) {
+					nS++
+					if first == nil {
+						first = c
+					}
+				}
+			}
+			usableElsewhere := false
+			for k, c := range copiesOf[b] {
+				where := "o"
+				if inS(c) {
+					where = "s"
+				}
+				rec.Copies = append(rec.Copies, c43Copy{b.tok, where, int(c.off), int(c.len), c.damaged, packFails[c.pack]})
+				if c != first && !c.damaged && !packFails[c.pack] && (!inS(c) || sfault != "packfail") {
+					usableElsewhere = true
+					// the situation "an unusable shorter copy is listed before a usable longer one"
+					for _, e := range copiesOf[b][:k] {
+						if e.len < c.len && (e.damaged || packFails[e.pack] || (inS(e) && sfault == "packfail")) {
+							longerLater = true
+						}
+					}
+				}
+			}
+			if nS > 1 {
+				dupInS = true
+			}
+			rec.Req = append(rec.Req, c43Req{b.tok, int(first.off), int(first.len), usableElsewhere, first.damaged})
 			handles = append(handles, b.h)
 		}
+		if dupInS {
+			res.Count("repo_requested_blob_twice_in_streamed_pack", 1)
+		}
+		if longerLater && sfault != "none" {
+			res.Count("repo_unusable_short_copy_listed_before_usable_longer_copy", 1)
+		}
+		if len(others) > 0 {
+			res.Count("repo_copies_in_other_packs", 1)
+		}
 		r.Shuffle(len(handles), func(a, b int) { handles[a], handles[b] = handles[b], handles[a] })
-		switch r.Intn(5) {
+		switch r.Intn(6) {
 		case 0:
 			rec.CbErrAt = 1
 		case 1:
 			rec.CbErrAt = 1 + r.Intn(len(req))
 		}
-		nloadA := 0
+		flips := map[string][]int{}
+		for _, c := range reqCopies {
+			if c.damaged {
+				flips[c.pack.String()] = append(flips[c.pack.String()], c.flipAt)
+			}
+		}
+		failing := map[string]bool{}
+		for id := range packFails {
+			failing[id.String()] = true
+		}
+		nloadS := 0
 		store.ReadFault = func(_ string, h backend.Handle, length int, off int64, data []byte) ([]byte, error) {
-			if h.Type != backend.PackFile || h.Name != packA.String() {
+			if h.Type != backend.PackFile {
 				return data, nil
 			}
-			nloadA++
-			if fault == "packfail" && nloadA >= failFrom {
-				rec.Loads = append(rec.Loads, c43Load{int(off), length, "fail"})
+			streamed := h.Name == packS.String()
+			if streamed {
+				nloadS++
+				if sfault == "packfail" && nloadS >= failFrom {
+					rec.Loads = append(rec.Loads, c43Load{int(off), length, "fail"})
+					return nil, kit.ErrInjected
+				}
+			} else if failing[h.Name] {
+				res.Count("repo_failed_downloads_of_other_packs", 1)
 				return nil, kit.ErrInjected
 			}
-			if fault == "flip" && flipAbs >= int(off) && flipAbs < int(off)+len(data) {
-				data = append([]byte{}, data...)
-				data[flipAbs-int(off)] ^= 0x04
+			copied := false
+			for _, at := range flips[h.Name] {
+				if at >= int(off) && at < int(off)+len(data) {
+					if !copied {
+						data = append([]byte{}, data...)
+						copied = true
+					}
+					data[at-int(off)] ^= 0x04
+				}
 			}
-			rec.Loads = append(rec.Loads, c43Load{int(off), length, "ok"})
+			if streamed {
+				rec.Loads = append(rec.Loads, c43Load{int(off), length, "ok"})
+			} else {
+				res.Count("repo_downloads_of_other_packs", 1)
+			}
 			return data, nil
 		}
 		ncb := 0
@@ -147,7 +360,7 @@ func c43Repo(t *testing.T, res *kit.Result, emit func(rec c43Rec, sig string, no
 					rec.Panic = fmt.Sprint(p)
 				}
 			}()
-			err := repo.LoadBlobsFromPack(ctx, packA, handles, func(bh restic.BlobHandle, buf []byte, err error) error {
+			err := repo.LoadBlobsFromPack(ctx, packS, handles, func(bh restic.BlobHandle, buf []byte, err error) error {
 				ncb++
 				tok, status := "?"+bh.String(), "err"
 				for _, b := range blobs {
@@ -177,6 +390,6 @@ func c43Repo(t *testing.T, res *kit.Result, emit func(rec c43Rec, sig string, no
 			}
 		}()
 		store.ReadFault = nil
-		emit(rec, fmt.Sprintf("repo|%d|%v|%s|%d", i, rec.Req, rec.Fault, rec.CbErrAt), len(req) > 1 || fault != "none")
+		emit(rec, fmt.Sprintf("repo|%d|%v|%v|%s|%d", i, rec.Req, rec.Copies, rec.Fault, rec.CbErrAt), len(req) > 1 || sfault != "none")
 	}
 }
